@@ -366,3 +366,71 @@ SPECS["C07"] = dict(
     level_text="bounded inductive-step verification in exact real arithmetic: every valid factorization state of size n<=4 (fixed rational frame), every branch of one step / init / single-shift compress",
     level_note="exact arithmetic; n<=4; one fixed orthogonal frame per n; trusted: g++, Eigen, z3/cvc5, symx",
 )
+
+
+# ------------------------------------------------------------------------------------------------
+# C11: matrix-operation wrappers
+def c11_jobs(tier):
+    if tier == "quick":
+        return [dict(harness="c11_ops", pattern=r"^(?!SparseGenComplexShiftSolve).*/n2$|^nonsquare/", label="all wrappers n=2, non-square shapes", deadline=280)]
+    return [dict(harness="c11_ops", pattern=r"^(?!SparseGenComplexShiftSolve).*/n2$|^nonsquare/", label="all wrappers n=2", deadline=900),
+            dict(harness="c11_ops", pattern=r"^(Dense|Sparse)(Gen|Sym|Herm)MatProd.*/n3$|^SymShiftInvert/.*/n3$|^(Dense|Sparse)Cholesky.*/n3$|^SparseRegularInverse/.*/n3$|^SparseSymShiftSolve/.*/n3$|^DenseGenRealShiftSolve/.*/n3$",
+                 label="products, SymShiftInvert, Cholesky, shift solves n=3", deadline=3000, cap=(20, 120))]
+
+
+SPECS["C11"] = dict(
+    run=std_run, jobs=c11_jobs, post=reg_post([("c11_reginv_upper.cpp", ())]),
+    explanation=("Every built-in wrapper is instantiated with the symbolic scalar and run on symbolic matrices, vectors and shifts; for wrappers with a triangle option the designated triangle holds the "
+                 "symmetric matrix and every entry of the other triangle is an independent junk symbol. z3 proves per path (pivoting decisions of PartialPivLU / SparseLU / BKLDLT / LLT / SimplicialLLT fork "
+                 "like any branch): y = A x and op*X (Gen), y = sym(A_tri) x (Sym/Herm, dense/sparse, Lower/Upper x Col/RowMajor x int/long index), (A - sigma I) y = x (real shift solves), "
+                 "(A - sigma I) z = x and y = Re z (complex shift, dense), L^-T L^-1 = B^-1 and <L^-1 x, L^-1 y> = x'B^-1 y with the fill-reducing permutation (Cholesky wrappers), y = B x "
+                 "(SparseRegularInverse::perform_op), (A - sigma B) y = x for the dense/sparse x dense/sparse x Lower/Upper x Lower/Upper pairings of SymShiftInvert plus a sample of storage-order / index-type "
+                 "combinations; and that NO output term mentions a junk symbol (the other triangle is never read). The CG-based SparseRegularInverse::solve is decided by taint: designated triangle and x "
+                 "numeric, other triangle junk - no branch and no output may depend on junk, and the concrete result solves the system of the designated triangle. Non-square shapes up to 4x4 raise "
+                 "std::invalid_argument in all ten wrappers that document it."),
+    functions=["perform_op / operator* / operator() / set_shift / solve / lower_triangular_solve / upper_triangular_solve of DenseGenMatProd, DenseSymMatProd, DenseHermMatProd, SparseGenMatProd, SparseSymMatProd, "
+               "SparseHermMatProd, SparseSymShiftSolve, DenseGenRealShiftSolve, SparseGenRealShiftSolve, DenseGenComplexShiftSolve, DenseCholesky, SparseCholesky, SparseRegularInverse, SymShiftInvert "
+               "(+ SymShiftInvertHelper, BKLDLT, Eigen's LLT / SimplicialLLT / PartialPivLU / SparseLU / ConjugateGradient instantiated with the symbolic scalar)", "DenseSymShiftSolve: see C10"],
+    bounds={"quick": {"n": 2, "template options": "70 instantiations incl. all 16 dense/sparse x Lower/Upper pairings of SymShiftInvert + 6 storage-order/index combinations", "non-square": "all r x c, r != c, up to 4x4"},
+            "thorough": {"n": "2 and 3"}},
+    outside=[ROUNDING + " (backward stability)", "SparseGenComplexShiftSolve: a few residual identities stay undecided within the solver caps at n=2 (harness cases exist, not registered)",
+             "the remaining storage-order / index-type combinations of SymShiftInvert (22 of 64 instantiated)", "arguments passed as blocks / maps / expressions", "singular shifted matrices (outside the wrappers' domain)"],
+    assumptions=["exact real arithmetic", "shift solves: sigma is not an eigenvalue (a zero pivot is assumed away; SparseLU failures surface as invalid_argument)"],
+    policy=dict(events="violation", allow_cut=lambda case: "solve-taint" in case,
+                expected_outcomes=r"^(completed|infeasible)$|^cut:tainted branch"),
+    technique="symbolic execution of the real wrapper templates (and the Eigen decompositions below them) on symbolic matrices with junk symbols in the unused triangle; z3 proves each operator identity entry-wise",
+    level_text="bounded symbolic verification in exact arithmetic: every matrix / vector / shift of size n=2 (3 thorough) for 70 wrapper instantiations; triangle non-interference by symbol dependence",
+    level_note="n<=3; exact arithmetic; a sample of the template cross product; trusted: g++, Eigen, z3/cvc5, symx",
+)
+
+
+def c03_jobs(tier):
+    if tier == "quick":
+        return [dict(harness="c03_geigs", pattern=r"/n2$|^backtransform/.*/nev[12]/|^lemma", label="operators n=2, back-transformations nev<=2", deadline=250, sanitize=True),
+                dict(harness="c07_krylov", pattern=r"^lanczos-bstep/n3", label="B-inner product Lanczos step (shared with C07)", deadline=100),
+                dict(harness="c11_ops", pattern=r"^SymShiftInvert/(dd|ss)/(LU|UL)/n2$|^(Dense|Sparse)Cholesky/upper/col/n2$|^SparseRegularInverse/.*/n2$", label="wrappers in non-default triangle options (shared with C11)", deadline=200)]
+    return [dict(harness="c03_geigs", pattern=r".", label="operators n<=3, back-transformations nev<=3", deadline=1500, sanitize=True),
+            dict(harness="c07_krylov", pattern=r"^lanczos-bstep/", label="B-inner product Lanczos steps", deadline=300),
+            dict(harness="c11_ops", pattern=r"^SymShiftInvert/.*/n2$|^(Dense|Sparse)Cholesky/.*/n2$|^SparseRegularInverse/.*/n2$", label="wrappers (shared with C11)", deadline=600)]
+
+
+SPECS["C03"] = dict(
+    run=std_run, jobs=c03_jobs,
+    explanation=("Generalized symmetric solvers, decided piecewise on the real code: (1) the five internal operators (SymGEigsCholeskyOp, RegInvOp, ShiftInvertOp, BucklingOp, CayleyOp) are run on the real dense/"
+                 "sparse wrappers with symbolic pencils and z3 proves L y = A L^-T x with L L' = B, y = B^-1(A x), (A - sigma B) y = B x, (K - sigma K_G) y = K x, (A - sigma B) y = (A + sigma B) x; "
+                 "(2) the B-inner product of ArnoldiOp (x'By, sqrt(x'Bx), X'By) inside a real Lanczos step keeps A V = V H + f e', V'BV = I, V'Bf = 0 (C07 harness); (3) the real sort_ritzpair of the three "
+                 "shift modes, run from an arbitrary Ritz state, returns 1/nu + sigma, sigma nu/(nu-1), sigma (nu+1)/(nu-1), co-permutes value / vector column / flag and orders by the sorting rule on lambda; "
+                 "the inverse maps compose to the identity; (4) sigma == 0 is rejected with invalid_argument in buckling and Cayley mode and only there (symbolic sigma: the test forks); (5) Cholesky-mode "
+                 "eigenvectors() returns X = L^-T (V y) with X'BX = y'V'Vy; (6) the mode operator passed as an rvalue lives in the solver's own container (run under ASan). Together with C01 (generation "
+                 "consistency of HermEigsBase, shared by all these solvers) and C07 this yields A x = lambda B x and X'BX = I in exact arithmetic."),
+    functions=["SymGEigsCholeskyOp/RegInvOp/ShiftInvertOp/BucklingOp/CayleyOp::perform_op, set_shift", "SymGEigsShiftSolver<.., ShiftInvert|Buckling|Cayley>: constructor, set_shift_and_move, sort_ritzpair",
+               "SymGEigsSolver<.., Cholesky>: constructor, eigenvectors(nvec)", "HermEigsBase rvalue constructor, create_op_container", "ArnoldiOp<S,Op,BOp>::inner_product, norm, adjoint_product", "SymShiftInvert, DenseCholesky, "
+               "SparseCholesky, SparseRegularInverse, DenseSymMatProd, SparseSymMatProd"],
+    bounds={"quick": {"pencil size": 2, "back-transformations": "nev = 1,2; 4 sorting rules; 3 modes", "B-inner product step": "n=3"}, "thorough": {"pencil size": "2,3", "back-transformations": "nev<=3", "B-inner product step": "n=3,4"}},
+    outside=[ROUNDING + " (conditioning of B)", "whole generalized solver runs on symbolic pencils (composition argument instead)", "SparseRegularInverse::solve identity (CG): only triangle non-interference is decided (C11)"],
+    assumptions=["exact real arithmetic", "nu != 0 (shift-invert) / nu != 1 (buckling, Cayley): sigma is not a generalized eigenvalue"],
+    policy=dict(events="violation", allow_cut=lambda case: "solve-taint" in case, expected_outcomes=r"^(completed|infeasible)$|^cut:tainted branch"),
+    technique="symbolic execution of the real generalized-mode operators, back-transformations and B-inner-product Lanczos step on symbolic pencils; z3 proves each identity",
+    level_text="bounded symbolic verification in exact arithmetic of every building block of the generalized solvers at pencil size 2 (3 thorough); composition with C01/C07 argued, not executed",
+    level_note="compositional; n<=3; exact arithmetic",
+)
